@@ -14,7 +14,9 @@ MANIFEST = dict(
          "transaction per HTLC output, in output order), C04_entry_points_agree (on every content phase 2 signs, phase 1 "
          "accepts canon_tx with canon_ws and returns the same signature; needs the parse-after-build round trip of every "
          "script template, proved once for a template interpreter), C04_no_foreign_tx (under injectivity of the digest and "
-         "of signature verification no other transaction verifies), C04_wire_binding (the same at the protocol handler: "
+         "of signature verification no other transaction verifies), C04_bolt3_trimming (the signed transaction is bolt3_tx - "
+         "no output for an HTLC below dust + second-stage fee - because accepted contents carry no trimmed HTLC; "
+         "C04_validated_contents_untrimmed discharges that premise from C05's validator theorem), C04_wire_binding (the same at the protocol handler: "
          "SignRemoteCommitmentTx2 signs canon_tx of wire_content = the glue that truncates msat amounts to satoshis and maps "
          "the wire sides, and SignRemoteCommitmentTx accepts that transaction with the same signature), C04_validated_contents_bounded (the expiry premise of "
          "the round trip follows from C05's validator theorem), C04_hash_lengths (the executable SHA-256 / RIPEMD-160 "
@@ -40,7 +42,7 @@ MANIFEST = dict(
 
 PINNED = ["C04_phase1_canonical", "C04_phase2_sig", "C04_decode_roundtrip", "C04_canon_order_independent",
           "C04_entry_points_agree", "C04_hash_lengths", "C04_entry_points_agree_sha256", "C04_no_foreign_tx",
-          "C04_htlc_sigs_bind", "C04_wire_binding",
+          "C04_htlc_sigs_bind", "C04_wire_binding", "C04_bolt3_trimming", "C04_validated_contents_untrimmed",
           "C04_nonvacuous", "C04_anchors_type_refuted", "C04_old_vout_truncation_refuted",
           "C04_validated_contents_bounded"]
 
@@ -129,7 +131,7 @@ def run(res):
     ok, out = lib.build_coq(["theories/Model/CommitmentCheck.vo"])
     if not ok:
         raise lib.Fail("Model/CommitmentCheck.v does not build:\n" + out[-2000:])
-    n = int(os.environ.get("VERIF_C04_N", "64" if quick else "240"))
+    n = int(os.environ.get("VERIF_C04_N", "80" if quick else "240"))
     n_digest = 6 if quick else 24
     t0 = time.time()
     gen = lib.run_harness("commit", "gen", res.seed, n, res.tier)
@@ -261,7 +263,11 @@ def run(res):
                 "scripts in the PSBT; as_vec -> from_vec -> ChannelHandler::handle at protocol 4/5/6) whose HTLC amounts are msat "
                 "values x*1000 + {0, 1, 500, 999}, sides interleaved; the expected BOLT-3 transaction is built with LDK directly "
                 "from the harness's own reading of the wire fields (msat / 1000 rounded down, side 1 = offered by the "
-                "counterparty), compared with the model's canon_tx (wire_content ...) and used to verify the replies",
+                "counterparty, no output below the trimming threshold of its direction), compared with the model's bolt3_tx "
+                "(wire_content ...) for every case and used to verify the replies. HTLC amounts: a quarter of them sit at "
+                "threshold-1 / threshold / threshold+1 of BOTH trimming thresholds (330 + feerate*663/1000 and "
+                "330 + feerate*703/1000; 354 on zero-fee-anchor channels) on BOTH sides, so a received HTLC between the two "
+                "thresholds (trimmed by BOLT-3, to be refused by the validator) occurs in several cases per run",
         "samples": [strip(c) for c in cases[:2]],
         "cases": len(cases),
         "phase2_signed": len(signed),
